@@ -378,10 +378,16 @@ def run(ctx, rep):
     # model evaluation (sa/miniinterp.py; no repository code is run) of the two table helpers on every relevant table state
     from .. import miniinterp as MI
     import copy as _copy
-    fa = ctx.func(RS + "._add_service")
-    fr_ = ctx.func(RS + "._remove_service")
-    rep.analysed(fa)
-    rep.analysed(fr_)
+    class _Absent:
+        node = None
+        loc = ctx.cls(RS).node.lineno and ctx.loc(ctx.cls(RS).node)
+    fa = rs.methods.get("_add_service") or _Absent()
+    fr_ = rs.methods.get("_remove_service") or _Absent()
+    for f__ in (fa, fr_):
+        if f__.node is not None:
+            rep.analysed(f__)
+        else:
+            rep.info("a table helper of the reference tree is gone; its behaviour is decided through the command-level model (R18.6)")
     NOW = 1000.0
     A1, A2 = ("10.0.0.1", 1), ("10.0.0.2", 2)
 
@@ -413,7 +419,7 @@ def run(ctx, rep):
     ]
     bad_state, bad_note, bad_fail = [], [], []
     try:
-        for what, table, want, fires in add_rows:
+        for what, table, want, fires in (add_rows if fa.node is not None else []):
             got, fired, err = run_helper(fa, table, ["FOO", A1])
             if got != want or err:
                 bad_state.append("%s: table %s -> %s%s" % (what, table, got, " raising %s" % err if err else ""))
@@ -422,8 +428,8 @@ def run(ctx, rep):
             got, fired, err = run_helper(fa, table, ["FOO", A1], fail=True)
             if err or got != want:
                 bad_fail.append("%s: %s" % (what, err or "table %s" % got))
-    except AnalysisError:
-        raise
+    except AnalysisError as e_:
+        rep.undecided("R18.5", "the table helper", str(e_))
     rep.ob("R18.5", "_add_service: records (name, address) with the current time and leaves the rest of the table alone", not bad_state,
            "%d table states evaluated" % len(add_rows) if not bad_state else "; ".join(bad_state)[:400], fa.loc, kind="table")
     rep.ob("R18.5", "_add_service: on_service_added fires only when the (name, address) pair was not present", not bad_note,
@@ -439,7 +445,7 @@ def run(ctx, rep):
     ]
     bad_state, bad_note, bad_fail = [], [], []
     try:
-        for what, table, want, fires in rem_rows:
+        for what, table, want, fires in (rem_rows if fr_.node is not None else []):
             got, fired, err = run_helper(fr_, table, ["FOO", A1])
             if got != want or err:
                 bad_state.append("%s: table %s -> %s%s" % (what, table, got, " raising %s" % err if err else ""))
@@ -448,8 +454,8 @@ def run(ctx, rep):
             got, fired, err = run_helper(fr_, table, ["FOO", A1], fail=True)
             if err or got != want:
                 bad_fail.append("%s: %s" % (what, err or "table %s" % got))
-    except AnalysisError:
-        raise
+    except AnalysisError as e_:
+        rep.undecided("R18.5", "the table helper", str(e_))
     rep.ob("R18.5", "_remove_service: removes exactly that server; a name with no servers left is removed from the table",
            not bad_state, "%d table states evaluated" % len(rem_rows) if not bad_state else "; ".join(bad_state)[:400], fr_.loc,
            kind="table")
@@ -470,7 +476,142 @@ def run(ctx, rep):
     TMO = 20.0
     H1, H2, H3 = "10.0.0.1", "10.0.0.2", "10.0.0.3"
 
-    def run_history(ops):
+    GARBAGE = ("<undecodable datagram>",)
+
+    def run_history(ops, through_loop=False):
+        clock = [0.0]
+        fired = []
+        if through_loop:
+            return run_loop_history(ops)
+        return run_direct_history(ops)
+
+    def run_loop_history(ops):
+        """the same histories, delivered as datagrams to the main loop `_work` (scripted _recv/_send, receive time-outs between
+        the requests); malformed datagrams are interleaved and must be ignored"""
+        clock = [0.0]
+        fired = []
+        sent = []
+        events = []
+        for op in ops:
+            t, kind, args = op[0], op[1], list(op[2:])
+            events.append((t, "timeout", None, None))
+            if kind == "idle":
+                continue
+            if kind == "register":
+                host, names, port = args
+                events.append((t, "data", ("RPYC", "REGISTER", (names, port)), (host, 40000)))
+            elif kind == "unregister":
+                host, port = args
+                events.append((t, "data", ("RPYC", "UNREGISTER", (port,)), (host, 40000)))
+            else:
+                host, name = args
+                events.append((t, "data", ("RPYC", "QUERY", (name,)), (host, 40000)))
+            events.append((t, "data", ("SPAM", "QUERY", ("foo",)), (H3, 1)))
+            events.append((t, "data", GARBAGE, (H3, 1)))
+            events.append((t, "data", ("RPYC", 17, ()), (H3, 1)))
+            events.append((t, "data", ("RPYC", "NOSUCH", ()), (H3, 1)))
+        state = {"services": {}, "pruning_timeout": TMO, "active": True}
+        pos = [0]
+
+        def recv():
+            if pos[0] >= len(events):
+                state["active"] = False
+                raise MI.Raised("socket.timeout")
+            t, kind, payload, addr = events[pos[0]]
+            pos[0] += 1
+            clock[0] = t
+            if kind == "timeout":
+                raise MI.Raised("socket.timeout")
+            return (payload, addr)
+
+        def load(data):
+            if data is GARBAGE:
+                raise MI.Raised("ValueError")
+            return data
+        hooks = {"time.time": lambda: clock[0], "self._recv": recv, "self._send": lambda d, a: sent.append((clock[0], d, a)),
+                 "brine.load": load, "brine.dump": lambda x: x,
+                 "self.on_service_added": lambda n, a: fired.append(("added", n, a)),
+                 "self.on_service_removed": lambda n, a: fired.append(("removed", n, a))}
+        for lv in ("debug", "info", "warn", "warning", "error", "exception"):
+            hooks["self.logger." + lv] = lambda *a: None
+        extra = {"__calls__": hooks, "__max_iter__": 2000,
+                 "__methods__": {k: v for k, v in methods.items() if k not in ("on_service_added", "on_service_removed", "_recv", "_send")}}
+        try:
+            MI.call_method(methods["_work"], state, [], extra)
+        except MI.Raised as r:
+            return "the main loop stops with %s after %d of %d datagrams/time-outs" % (r.name, pos[0], len(events))
+        # reference
+        ref, ref_fired, want_sent, ambiguous = {}, [], [], []
+        for op in ops:
+            now, kind, args = op[0], op[1], list(op[2:])
+            if kind == "idle":
+                continue
+            if kind == "register":
+                host, names, port = args
+                for n in names:
+                    key = n.upper()
+                    if (host, port) not in ref.get(key, {}):
+                        ref_fired.append(("added", key, (host, port)))
+                    elif ref[key][(host, port)] < now - TMO:
+                        ambiguous.append(("added", key, (host, port)))      # stale but not yet pruned: either is acceptable
+                    ref.setdefault(key, {})[(host, port)] = now
+                want_sent.append((now, "OK", (host, 40000)))
+            elif kind == "unregister":
+                host, port = args
+                for key in list(ref):
+                    if (host, port) in ref[key]:
+                        del ref[key][(host, port)]
+                        if not ref[key]:
+                            del ref[key]
+                        ref_fired.append(("removed", key, (host, port)))
+                want_sent.append((now, "OK", (host, 40000)))
+            else:
+                host, name = args
+                key = name.upper()
+                live = []
+                for addr, t in sorted(ref.get(key, {}).items(), key=lambda x: x[1]):
+                    if t >= now - TMO:
+                        live.append(addr)
+                    else:
+                        del ref[key][addr]
+                if key in ref and not ref[key]:
+                    del ref[key]
+                want_sent.append((now, tuple(live), (host, 40000)))
+        got_sent = [(t, tuple(d) if isinstance(d, list) else d, a) for t, d, a in sent]
+        if got_sent != want_sent:
+            for i, (g_, w_) in enumerate(zip(got_sent + [None] * len(want_sent), want_sent + [None] * len(got_sent))):
+                if g_ != w_:
+                    return "reply #%d through the main loop is %r, expected %r" % (i + 1, g_, w_)
+        # no live registration may be missing at the end; nothing that was never registered may appear
+        now = ops[-1][0]
+        for key, servers in ref.items():
+            for addr, t in servers.items():
+                if t >= now - TMO and addr not in state["services"].get(key, {}):
+                    return "at t=%s the live registration %s of %s (refreshed at t=%s) is gone from the table" % (now, addr, key, t)
+        for key, servers in state["services"].items():
+            for addr in servers:
+                if addr not in ref.get(key, {}):
+                    return "the table lists %s under %s, which was never registered / was unregistered" % (addr, key)
+        added = [f_ for f_ in fired if f_[0] == "added"]
+        must = sorted(f_ for f_ in ref_fired if f_[0] == "added")
+        extra_ok = list(ambiguous)
+        rest = list(added)
+        for f_ in must:
+            if f_ in rest:
+                rest.remove(f_)
+            else:
+                rest = None
+                break
+        if rest is not None:
+            for f_ in list(rest):
+                if f_ in extra_ok:
+                    extra_ok.remove(f_)
+                    rest.remove(f_)
+        if rest is None or rest:
+            return "added-notifications through the main loop are %r, expected %r" % (added, [f_ for f_ in ref_fired if f_[0] == "added"])
+        return None
+
+    def run_direct_history(ops):
         clock = [0.0]
         fired = []
         hooks = {"time.time": lambda: clock[0],
@@ -486,14 +627,33 @@ def run(ctx, rep):
             kind, args = op[1], list(op[2:])
             fired_before, ref_before = len(fired), len(ref_fired)
             try:
-                got = MI.call_method(methods["cmd_" + kind], state, args, extra)
+                if kind == "idle":
+                    got = MI.call_method(methods[args[0]], state, [], extra)
+                    got = None
+                else:
+                    got = MI.call_method(methods["cmd_" + kind], state, args, extra)
                 if isinstance(got, list):
                     got = tuple(got)
             except MI.Raised as r:
                 got = "raises " + r.name
             # reference model
             now = op[0]
-            if kind == "register":
+            if kind == "idle":
+                # any maintenance step the main loop may run between requests: it may only drop stale entries
+                want = got
+                before = {k: dict(v) for k, v in ref.items()}
+                for key in list(ref):
+                    for addr in list(ref[key]):
+                        if addr not in state["services"].get(key, {}):
+                            if ref[key][addr] < now - TMO:
+                                del ref[key][addr]
+                                ref_fired.append(("removed", key, addr))
+                            else:
+                                return "t=%s idle step %s() removes the live registration %s of %s (refreshed at t=%s)" % (
+                                    now, op[2], addr, key, ref[key][addr])
+                    if key in ref and not ref[key]:
+                        del ref[key]
+            elif kind == "register":
                 host, names, port = args
                 for n in names:
                     key = n.upper()
@@ -550,10 +710,36 @@ def run(ctx, rep):
             (0, "register", H1, ("foo",), 1), (1, "unregister", H1, 1), (2, "register", H1, ("foo",), 1), (50, "query", H2, "foo"),
             (51, "register", H1, ("foo",), 1), (52, "query", H2, "foo")],
     }
+    histories["one request naming the same service twice (case folding)"] = [
+        (0, "register", H1, ("foo", "Foo", "BAR"), 1), (1, "register", H1, ("FOO", "bar"), 1), (2, "query", H2, "foo"),
+        (3, "unregister", H1, 1), (4, "query", H2, "Bar")]
+    # maintenance methods that did not exist in the reference tree (no arguments, private): exercised as idle steps
+    from .. import renames as RN
+    ref_members = (RN.load_known() or {}).get("rpyc.utils.registry", {}).get("classes", {}).get("RegistryServer", {}).get("methods", {})
+    idle = [nm for nm, m in sorted(rs.methods.items()) if ref_members and nm not in ref_members and nm.startswith("_")
+            and len(A.params(m.node)) == 1]
+    for nm in idle:
+        histories["idle step %s() between requests" % nm] = [
+            (0, "register", H1, ("foo",), 1), (15, "register", H1, ("bar",), 1), (16, "register", H2, ("foo",), 2),
+            (18, "idle", nm), (25, "idle", nm), (25, "query", H3, "bar"), (30, "idle", nm), (37, "idle", nm), (37, "query", H3, "foo"),
+            (60, "idle", nm), (60, "query", H3, "bar")]
+    histories["quiet periods: receive time-outs between requests"] = [
+        (0, "register", H1, ("foo",), 1), (15, "register", H1, ("bar",), 1), (16, "register", H2, ("foo",), 2),
+        (18, "idle", None), (25, "idle", None), (25, "query", H3, "bar"), (30, "idle", None), (35, "query", H3, "bar"),
+        (37, "query", H3, "foo"), (60, "idle", None), (61, "query", H3, "bar")]
     n_ops = 0
     for title, ops in sorted(histories.items()):
         n_ops += len(ops)
-        bad = run_history(ops)      # an AnalysisError (construct the interpreter does not model) ends the run with exit 2
+        try:
+            bad = None
+            if not any(o[1] == "idle" for o in ops):
+                bad = run_history(ops)
+            if bad is None and "_work" in methods:
+                bad = run_history(ops, through_loop=True)
+        except AnalysisError as e_:
+            # a construct the interpreter does not model: undecided (exit 2 unless a violation is found elsewhere)
+            rep.undecided("R18.6", "registry history '%s'" % title, str(e_))
+            continue
         rep.ob("R18.6", "registry commands, history '%s'" % title, bad is None,
                "%d commands agree with the reference model (answers, table contents, notifications)" % len(ops) if bad is None else bad,
                fq.loc, kind="table")
